@@ -115,7 +115,7 @@ for sid in sorted(os.listdir(os.path.join(ROOT, "seeded"))):
         meta["ran"].append("tools/confirm_seed.sh %s  (scratch worktree of /repo HEAD under /tmp: suite with patch, demo with and without patch)" % sid)
     o = os.path.join(d, "official.txt")
     if os.path.exists(o):
-        txt = open(o).read()
+        txt = open(o, errors="replace").read()
         res = {}
         for m in re.finditer(r"^(C\d+) rc=(\d+) violations=(\d+)", txt, re.M):
             res[m.group(1)] = {"exit": int(m.group(2)), "violation_lines": int(m.group(3))}
